@@ -16,7 +16,8 @@ use soroban_sdk::{Address, BytesN};
 
 pub struct C04;
 
-const CHAINS: [&str; 3] = ["ethereum", "avalanche", "sui"];
+// (one origin name has upper-case letters: names are compared as they were trusted)
+const CHAINS: [&str; 3] = ["ethereum", "Avalanche-Fuji", "sui"];
 const HUB_ADDR: &str = "axelar1hubaddressxyz";
 
 #[derive(Clone, Copy, Debug, Serialize, Deserialize, PartialEq, Eq)]
@@ -271,6 +272,8 @@ impl Property for C04 {
             if k % 2 == 0 {
                 let mut c = name.chars();
                 match c.next() {
+                    // the first letter in the other case
+                    Some(f) if f.is_uppercase() => f.to_lowercase().collect::<String>() + c.as_str(),
                     Some(f) => f.to_uppercase().collect::<String>() + c.as_str(),
                     None => "X".to_string(),
                 }
